@@ -135,6 +135,7 @@ def run(ctx):
         if max(ws) == 0:
             ws[0] = 3
         recs = []
+        mvs_pos = []
         for m, w in zip(pick, ws):
             def piece_on(fen, sqn):
                 row = fen.split()[0].split("/")[8 - int(sqn[1])]
@@ -149,6 +150,7 @@ def run(ctx):
                 return None
             mm = CASTLE[m] if (m in CASTLE and (piece_on(f, m[:2]) or "").lower() == "k") else m      # Polyglot stores castling as king-takes-rook
             recs.append((int(k.strip(), 16), enc_move(mm), w))
+            mvs_pos.append(enc_move(mm))
         sm = rng.choice((sl[0] or "").split()[1:])
         recs.append((startkey, enc_move(sm), 9))
         recs.sort(key=lambda r: r[0])
@@ -164,6 +166,23 @@ def run(ctx):
             ujobs.append((f, "random", nonzero, opts + ["setoption name Polyglot Sample value random", "position fen " + f, "go depth 1"]))
             ujobs.append((posgen.START, "after ucinewgame", [sm], opts + ["setoption name Polyglot Sample value best", "position fen " + f, "ucinewgame", "go depth 1"]))
             ujobs.append((f, "position after another position", best, opts + ["setoption name Polyglot Sample value best", "position startpos moves e2e4", "position fen " + f, "go depth 1"]))
+            # the ORDER and REPETITION of the two options: nearly equal weights (the best move is unique, every other move is almost as
+            # likely under weighted sampling) and several go commands, so that a policy silently back at `random` shows
+            ws2 = [50000 + j for j in range(len(pick))]
+            rng.shuffle(ws2)
+            path2 = os.path.join(scratch, "v%d.bin" % i)
+            recs2 = [(int(k.strip(), 16), mv_, w2) for (mv_, w2) in zip(mvs_pos, ws2)] + [(startkey, enc_move(sm), 9)]
+            recs2.sort(key=lambda r_: r_[0])
+            with open(path2, "wb") as fh:
+                for key_, mv_, w_ in recs2:
+                    fh.write(struct.pack(">QHHI", key_, mv_, w_, 0))
+            best2 = [m for m, w in zip(pick, ws2) if w == max(ws2)]
+            gos = ["position fen " + f, "go depth 1"] * 6
+            sb, bk, bk1 = "setoption name Polyglot Sample value best", "setoption name Polyglot Book value " + path2, "setoption name Polyglot Book value " + path
+            shape_ = rng.choice([("policy set before the book", [sb, bk]), ("book set twice", [bk, sb, bk]), ("book replaced by another book", [bk1, sb, bk]),
+                                 ("book emptied and set again", [bk, sb, "setoption name Polyglot Book value ", bk]), ("policy random, then best, then the book", ["setoption name Polyglot Sample value random", sb, bk]),
+                                 ("policy set twice around the book", [sb, bk, sb])])
+            ujobs.append((f, shape_[0], best2, shape_[1] + gos))
     with concurrent.futures.ThreadPoolExecutor(max_workers=NPROC) as ex:
         ures = list(ex.map(lambda j: run_script(exe, j[3], go_timeout=60), ujobs))
     shutil.rmtree(scratch, ignore_errors=True)
@@ -171,6 +190,9 @@ def run(ctx):
     for (f, shape, allowed, script), r in zip(ujobs, ures):
         nu += 1
         b = r["bestmoves"][0] if r["bestmoves"] else None
+        wrong = [x for x in r["bestmoves"] if x not in allowed]
+        if b in allowed and wrong:
+            b = wrong[0]
         if b not in allowed:
             nviol += 1
             if nviol <= 6:
